@@ -5,7 +5,6 @@
 package sx
 
 import (
-
 	"fmt"
 	"go/constant"
 	"go/token"
@@ -13,7 +12,7 @@ import (
 	"unsafe"
 
 	"golang.org/x/tools/go/ssa"
-	)
+)
 
 // constValue returns the value of the constant with the
 // dynamic type tag appropriate for c.Type().
@@ -248,8 +247,6 @@ func zero(t types.Type) value {
 	}
 	panic(fmt.Sprint("zero: unexpected ", t))
 }
-
-
 
 // binop implements all arithmetic and logical binary operators for
 // numeric datatypes and strings.  Both operands must have identical
@@ -720,12 +717,6 @@ func binopConcrete(op token.Token, t types.Type, x, y value) value {
 	panic(fmt.Sprintf("invalid binary op: %T %s %T", x, op, y))
 }
 
-
-
-
-
-
-
 // widen widens a basic typed value x to the widest type of its
 // category, one of:
 //
@@ -999,8 +990,6 @@ func convConcrete(t_dst, t_src types.Type, x value) value {
 
 	panic(fmt.Sprintf("unsupported conversion: %s  -> %s, dynamic type %T", t_src, t_dst, x))
 }
-
-
 
 func foldLeft(op func(value, value) value, args []value) value {
 	x := args[0]
